@@ -91,3 +91,6 @@ func HashNoPad(in []F) HashOut {
 	o := HashNToMNoPad(in, 4)
 	return HashOut{o[0], o[1], o[2], o[3]}
 }
+
+// RoundConstant returns the i-th Goldilocks Poseidon round constant (0 <= i < 360).
+func RoundConstant(i int) F { return glRoundConstants[i] }
